@@ -2,5 +2,87 @@
 
 package cmd
 
+//@ # The command entry closures (cobra RunE literals; `entry` mode: the package-level flag variables are state that is
+//@ # arbitrary at entry, deferred calls run at every return on the paths that deferred them, with the named result visible).
+//@ # What each contract pins: the library function the command is for is called with the options exactly as given on the
+//@ # command line (C15: after the documented translation of the legacy flags); whatever that call returns IS the command's
+//@ # error - deferred clean-up cannot replace it - so that cmd.Execute exits with status 1 exactly when it is non-nil (C18);
+//@ # documented refusals (mixing old and new flags, unknown --measure, unknown file suffix) return an error.
+
 //@ func toMultiAlignCmd.RunE entry
 //@   modifies everything
+//@   ghost gCalled bool = false
+//@   ghost gRet error = nil
+//@   # C15: --trimstart a / --trimend b (0-based, half open) equal --start a+1 / --end b, each bound alone or both; an unset bound stays unset
+//@   before call:ToMultiAlign#1: assert [c15.legacy.start] arg(3) == ite(old(toMultiAlignTrimStart) != -1, old(toMultiAlignTrimStart) + 1, old(toMultiAlignStart))
+//@   before call:ToMultiAlign#1: assert [c15.legacy.end] arg(4) == ite(old(toMultiAlignTrimEnd) != -1, old(toMultiAlignTrimEnd), old(toMultiAlignEnd))
+//@   before call:ToMultiAlign#1: assert [c15.no.mixing] !((old(toMultiAlignTrim) || old(toMultiAlignTrimStart) != -1 || old(toMultiAlignTrimEnd) != -1) && (old(toMultiAlignStart) != -1 || old(toMultiAlignEnd) != -1))
+//@   before call:ToMultiAlign#1: assert [c15.options] arg(0) == samIn && arg(1) == out && arg(2) == old(toMultiAlignWrap) && arg(5) == old(toMultiAlignPad) && arg(6) == samThreads
+//@   after call:ToMultiAlign#1: do gCalled = true; gRet = ret()
+//@   ensures [c18.exit.status] implies(gCalled, result == gRet)
+//@   ensures [c18.mixing.refused] implies((old(toMultiAlignTrim) || old(toMultiAlignTrimStart) != -1 || old(toMultiAlignTrimEnd) != -1) && (old(toMultiAlignStart) != -1 || old(toMultiAlignEnd) != -1), result != nil)
+
+//@ func toPairAlignCmd.RunE entry
+//@   modifies everything
+//@   ghost gCalled bool = false
+//@   ghost gRet error = nil
+//@   before call:ToPairAlign#1: assert [c15.options] arg(0) == samIn && arg(1) == ref && arg(2) == old(toPairAlignOutpath) && arg(3) == old(toPairAlignWrap) && arg(4) == old(toPairAlignStart) && arg(5) == old(toPairAlignEnd) && arg(6) == old(toPairAlignOmitReference) && arg(7) == old(toPairAlignSkipInsertions) && arg(8) == samThreads
+//@   after call:ToPairAlign#1: do gCalled = true; gRet = ret()
+//@   ensures [c18.exit.status] implies(gCalled, result == gRet)
+
+//@ func variantsCmd.RunE entry
+//@   modifies everything
+//@   ghost gCalled bool = false
+//@   ghost gRet error = nil
+//@   before call:Variants#1: assert [c15.options] arg(0) == msa && arg(1) == (old(variantsMSA) == "stdin") && arg(2) == old(variantsReference) && arg(3) == anno && arg(5) == out && arg(6) == old(variantsStart) && arg(7) == old(variantsEnd) && arg(8) == old(variantsAggregate) && (arg(9) == old(variantsThreshold) || (isnan(arg(9)) && isnan(old(variantsThreshold)))) && arg(10) == old(variantsAppendSNP) && arg(11) == old(variantsThreads)
+//@   before call:Variants#1: assert [c14.suffix] (arg(4) == "gb" || arg(4) == "gff") && implies(old(variantsGenbank) != "", arg(4) == "gb" && old(variantsAnnotation) == "")
+//@   after call:Variants#1: do gCalled = true; gRet = ret()
+//@   ensures [c18.exit.status] implies(gCalled, result == gRet)
+//@   ensures [c18.both.annotations.refused] implies(old(variantsGenbank) != "" && old(variantsAnnotation) != "", result != nil)
+
+//@ func samVariantsCmd.RunE entry
+//@   modifies everything
+//@   ghost gCalled bool = false
+//@   ghost gRet error = nil
+//@   before call:Variants#1: assert [c15.options] arg(0) == samIn && arg(1) == ref && arg(2) == (samReference != "") && arg(3) == anno && arg(5) == out && arg(6) == old(samVariantsStart) && arg(7) == old(samVariantsEnd) && arg(8) == old(samVariantsAggregate) && (arg(9) == old(samVariantsThreshold) || (isnan(arg(9)) && isnan(old(samVariantsThreshold)))) && arg(10) == old(samVariantsAppendSNP) && arg(11) == samThreads
+//@   before call:Variants#1: assert [c14.suffix] (arg(4) == "gb" || arg(4) == "gff") && implies(old(samVariantsGenbank) != "", arg(4) == "gb" && old(samVariantsAnnotation) == "")
+//@   after call:Variants#1: do gCalled = true; gRet = ret()
+//@   ensures [c18.exit.status] implies(gCalled, result == gRet)
+//@   ensures [c18.both.annotations.refused] implies(old(samVariantsGenbank) != "" && old(samVariantsAnnotation) != "", result != nil)
+
+//@ func snpCmd.RunE entry
+//@   modifies everything
+//@   ghost gCalled bool = false
+//@   ghost gRet error = nil
+//@   before call:SNPs#1: assert [c03.options] arg(0) == ref && arg(1) == query && arg(2) == old(hardGaps) && arg(3) == old(aggregate) && (arg(4) == old(thresh) || (isnan(arg(4)) && isnan(old(thresh)))) && arg(5) == out
+//@   after call:SNPs#1: do gCalled = true; gRet = ret()
+//@   ensures [c18.exit.status] implies(gCalled, result == gRet)
+
+//@ func updownListCmd.RunE entry
+//@   modifies everything
+//@   ghost gCalled bool = false
+//@   ghost gRet error = nil
+//@   before call:List#1: assert [c10.options] arg(0) == ref && arg(1) == query && arg(2) == out
+//@   after call:List#1: do gCalled = true; gRet = ret()
+//@   ensures [c18.exit.status] implies(gCalled, result == gRet)
+
+//@ func closestCmd.RunE entry
+//@   modifies everything
+//@   ghost gCalled bool = false
+//@   ghost gRet error = nil
+//@   before call:ClosestN#1: assert [c06.options.n] (old(closestN) > 0 || old(closestDist) != "") && arg(0) == old(closestN) && arg(2) == queryIn && arg(3) == targetIn && arg(4) == measure && arg(5) == closestOut && arg(6) == old(closestTable) && arg(7) == old(closestThreads)
+//@   before call:Closest#1: assert [c06.options] old(closestN) <= 0 && arg(0) == queryIn && arg(1) == targetIn && arg(2) == measure && arg(3) == closestOut && arg(4) == old(closestThreads)
+//@   before call:ClosestN#1: assert [c06.measure] measure == "raw" || measure == "snp" || measure == "tn93"
+//@   before call:Closest#1: assert [c06.measure] measure == "raw" || measure == "snp" || measure == "tn93"
+//@   after call:ClosestN#1: do gCalled = true; gRet = ret()
+//@   after call:Closest#1: do gCalled = true; gRet = ret()
+//@   ensures [c18.exit.status] implies(gCalled, result == gRet)
+
+//@ func toprankingCmd.RunE entry
+//@   modifies everything
+//@   ghost gCalled bool = false
+//@   ghost gRet error = nil
+//@   before call:TopRanking#1: assert [c08.options] arg(0) == query && arg(1) == target && arg(2) == ref && arg(3) == out && arg(4) == old(TRtable) && arg(5) == qtype && arg(6) == ttype && sameslice(arg(7), ignoreArray) && arg(8) == old(TRsizetotal) && arg(9) == old(TRsizeup) && arg(10) == old(TRsizedown) && arg(11) == old(TRsizeside) && arg(12) == old(TRsizesame) && arg(13) == old(TRdistall) && arg(14) == old(TRdistup) && arg(15) == old(TRdistdown) && arg(16) == old(TRdistside) && (arg(17) == old(TRthresholdpair) || (isnan(arg(17)) && isnan(old(TRthresholdpair)))) && arg(18) == old(TRthresholdtarget) && arg(19) == old(TRnofill) && arg(20) == old(TRdistpush)
+//@   before call:TopRanking#1: assert [c09.types] (qtype == "csv" || qtype == "fasta") && (ttype == "csv" || ttype == "fasta") && implies(qtype == "fasta" || ttype == "fasta", len(udReference) != 0)
+//@   after call:TopRanking#1: do gCalled = true; gRet = ret()
+//@   ensures [c18.exit.status] implies(gCalled, result == gRet)
